@@ -30,6 +30,7 @@ func (m *ModSet) allocKind(k string) {
 func (m *ModSet) setAlloc() {
 	m.alloc = true
 	m.comps["Ty"] = SArr(SInt, SInt)
+	m.comps["Mine"] = SArr(SInt, SBool)
 }
 
 func (m *ModSet) add(o *ModSet) {
@@ -325,6 +326,7 @@ func (f *Frame) enterLoop(l *Loop, pre *State, prePhi map[*ssa.Phi]Val) *State {
 	f.closedFacts(hdr, names)
 	if ms := l.modset; ms != nil && ms.alloc {
 		f.kindFacts(hdr, pre.alloc, ms)
+		vc.mineFacts(hdr)
 	}
 	for _, p := range l.phis {
 		f.assumeWF(hdr, hdrPhi[p])
@@ -493,9 +495,10 @@ func (f *Frame) makeCandidates(l *Loop) {
 			addG("own", k, func(st *State, _ map[*ssa.Phi]Val) Term {
 				r := Term{"r!q", SInt}
 				cur := vc.get(st, k)
-				fresh := func(e Term) Term { return Or(Eq(e, Zero), Ge(e, vc.A0)) }
 				vc.registerComp("Ty", SArr(SInt, SInt))
-				mine := And(Le(vc.A0, r), Lt(r, st.alloc), Eq(Select(vc.get(st, "Ty"), r), vc.kindTag(kindOfComp(k))))
+				vc.registerComp("Mine", SArr(SInt, SBool))
+				fresh := func(e Term) Term { return Or(Eq(e, Zero), Select(vc.get(st, "Mine"), e)) }
+				mine := And(Select(vc.get(st, "Mine"), r), Eq(Select(vc.get(st, "Ty"), r), vc.kindTag(kindOfComp(k))))
 				switch {
 				case strings.HasPrefix(k, "E|"):
 					j := Term{"j!q", SInt}
@@ -556,11 +559,11 @@ func (f *Frame) makeCandidates(l *Loop) {
 		case *types.Pointer, *types.Map:
 			mk1("nonnil:"+p.Name(), func(st *State, phi map[*ssa.Phi]Val) Term { return Ne(phi[p].one(), Zero) })
 			mk1("fresh:"+p.Name(), func(st *State, phi map[*ssa.Phi]Val) Term {
-				return Or(Eq(phi[p].one(), Zero), Ge(phi[p].one(), vc.A0))
+				return vc.mineOrNil(st, phi[p].one())
 			})
 		case *types.Slice:
 			mk1("freshArr:"+p.Name(), func(st *State, phi map[*ssa.Phi]Val) Term {
-				return Or(Eq(phi[p].arr(), Zero), Ge(phi[p].arr(), vc.A0))
+				return vc.mineOrNil(st, phi[p].arr())
 			})
 			el := t.Elem()
 			lay := layout(el)
@@ -580,13 +583,14 @@ func (f *Frame) makeCandidates(l *Loop) {
 				mk1("elemsFresh:"+p.Name()+lf.Suffix, func(st *State, phi map[*ssa.Phi]Val) Term {
 					j := Term{"j!q", SInt}
 					e := Select(Select(vc.get(st, name), phi[p].arr()), j)
-					return Forall([]Term{j}, Imp(And(Le(Zero, j), Lt(j, phi[p].len())), Or(Eq(e, Zero), Ge(e, vc.A0))), []Term{e})
+					return Forall([]Term{j}, Imp(And(Le(Zero, j), Lt(j, phi[p].len())), vc.mineOrNil(st, e)), []Term{e})
 				})
 			}
 		}
 	}
 	// local containers defined before the loop and mutated inside it
 	f.containerCandidates(l, mk1)
+	f.localObjectCandidates(l, mk1)
 }
 
 // rangeBound finds the SSA value n in "phi+1 < n" of a range-index loop.
@@ -652,8 +656,27 @@ func (f *Frame) containerCandidates(l *Loop, mk1 func(string, func(*State, map[*
 						k := Term{"k!q", keySort(mt.Key())}
 						d := Select(Select(vc.get(st, domName), m), k)
 						e := Select(Select(vc.get(st, vn), m), k)
-						return Forall([]Term{k}, Imp(d, Or(Eq(e, Zero), Ge(e, vc.A0))), []Term{e})
+						return Forall([]Term{k}, Imp(d, vc.mineOrNil(st, e)), []Term{e})
 					})
+					// reference fields of the (struct) values stay fresh-or-nil
+					if pt, ok := lf.T.Underlying().(*types.Pointer); ok && isStruct(pt.Elem()) {
+						for _, fl := range layout(pt.Elem()) {
+							if !isMutableRefLeaf(fl) {
+								continue
+							}
+							fname := "H|" + typeKey(pt.Elem()) + "|" + fl.Suffix
+							if !l.mods[fname] {
+								continue
+							}
+							mk1("mapValsFieldFresh:"+v.Name()+lf.Suffix+fl.Suffix, func(st *State, _ map[*ssa.Phi]Val) Term {
+								k := Term{"k!q", keySort(mt.Key())}
+								d := Select(Select(vc.get(st, domName), m), k)
+								e := Select(Select(vc.get(st, vn), m), k)
+								fe := Select(vc.get(st, fname), e)
+								return Forall([]Term{k}, Imp(And(d, Ne(e, Zero)), vc.mineOrNil(st, fe)), []Term{e})
+							})
+						}
+					}
 				}
 			}
 		}
@@ -687,4 +710,38 @@ func (f *Frame) termCheck(l *Loop, st *State, phi map[*ssa.Phi]Val, pos any) {
 		return
 	}
 	f.oblige(st, "TERM", fmt.Sprintf("loop %d has no decreases clause", l.ordinal), l.header.Instrs[0].Pos(), False)
+}
+
+// localObjectCandidates: reference fields of objects this activation allocated
+// before the loop (composite literals, new) stay fresh-or-nil.
+func (f *Frame) localObjectCandidates(l *Loop, mk1 func(string, func(*State, map[*ssa.Phi]Val) Term)) {
+	vc := f.vc
+	for v, val := range f.vals {
+		al, ok := v.(*ssa.Alloc)
+		if !ok || len(val.L) != 1 {
+			continue
+		}
+		el := deref(al.Type())
+		if isArray(el) {
+			continue
+		}
+		if l.header != nil && (l.blocks[al.Block()] || !al.Block().Dominates(l.header)) {
+			continue
+		}
+		loc := objLoc(al.Type(), val.one())
+		for _, lf := range layout(el) {
+			if !isMutableRefLeaf(lf) {
+				continue
+			}
+			name := loc.Root + "|" + lf.Suffix
+			if !l.mods[name] {
+				continue
+			}
+			name, ref := name, val.one()
+			mk1("localFresh:"+al.Name()+lf.Suffix, func(st *State, _ map[*ssa.Phi]Val) Term {
+				e := Select(vc.get(st, name), ref)
+				return vc.mineOrNil(st, e)
+			})
+		}
+	}
 }
